@@ -31,6 +31,12 @@ def shape_spec(shape, k, internal_samples=False):
             if len(level) % 2:
                 nxt.append(level[-1])
             level, t = nxt, t + 1.0
+    elif shape == "twostar":
+        # two wide polytomies under one root
+        nodes = [leaf() for _ in range(k)] + [[0, 1.0, -1, -1, ""], [0, 1.0, -1, -1, ""], [0, 2.0, -1, -1, ""]]
+        half = k // 2
+        edges = [[0.0, 1.0, k if u < half else k + 1, u, ""] for u in range(k)]
+        edges += [[0.0, 1.0, k + 2, k, ""], [0.0, 1.0, k + 2, k + 1, ""]]
     elif shape == "multiroot":
         nodes = [leaf() for _ in range(k)]
         for i in range(0, k - 1, 2):
@@ -85,3 +91,52 @@ def two_tree_spec(shape_a, shape_b, k, internal_samples=False, with_sites=True):
         for m, p_ in zip(spec["mutations"], par):
             m[3] = p_
     return spec
+
+
+def staggered_twostar(k):
+    """k samples under two wide parents, sample u attached only over [u, u+1): every parent buffers k/2
+    DIFFERENT child intervals (L = k)."""
+    nodes = [[1, 0.0, -1, -1, ""] for _ in range(k)] + [[0, 1.0, -1, -1, ""], [0, 1.0, -1, -1, ""], [0, 2.0, -1, -1, ""]]
+    half = k // 2
+    edges = [[float(u), float(u + 1), k if u < half else k + 1, u, ""] for u in range(k)]
+    edges += [[0.0, float(k), k + 2, k, ""], [0.0, float(k), k + 2, k + 1, ""]]
+    times = [nd[1] for nd in nodes]
+    edges.sort(key=lambda e: (times[e[2]], e[2], e[3], e[0]))
+    return dict(L=float(k), nodes=nodes, edges=edges, sites=[], mutations=[], individuals=[], populations=[],
+                migrations=[])
+
+
+def deep_pedigree_tables(tskit, G, order_seed):
+    """G ancestral generations x 2 individuals (both are parents of both individuals of the next generation), two
+    sample tips.  The number of descendant paths of an individual doubles per generation (beyond 32 / 64 bits for deep
+    pedigrees).  Node order is fixed; the individual table order is a deterministic permutation chosen by order_seed."""
+    keys = [(g, i) for g in range(G) for i in (0, 1)] + [("tip", 0), ("tip", 1)]
+    g_ = lcg(order_seed + 17)
+    order = sorted(range(len(keys)), key=lambda k: (next(g_), k)) if order_seed else list(range(len(keys)))
+    ind_id = {keys[k]: j for j, k in enumerate(order)}
+    L = 10.0
+    t = tskit.TableCollection(L)
+    for k in order:
+        g, i = keys[k]
+        if g == "tip":
+            parents = [ind_id[(G - 1, 0)], ind_id[(G - 1, 1)]]
+        elif g == 0:
+            parents = [-1, -1]
+        else:
+            parents = [ind_id[(g - 1, 0)], ind_id[(g - 1, 1)]]
+        t.individuals.add_row(flags=0, location=[float(i)], parents=parents, metadata=repr(keys[k]).encode())
+    for g in range(G):
+        for i in (0, 1):
+            t.nodes.add_row(flags=0, time=G - g, individual=ind_id[(g, i)])
+    t.nodes.add_row(flags=1, time=0, individual=ind_id[("tip", 0)])
+    t.nodes.add_row(flags=1, time=0, individual=ind_id[("tip", 1)])
+    for g in range(G - 1):
+        for i in (0, 1):
+            t.edges.add_row(0, L, 2 * g + i, 2 * (g + 1) + i)
+    t.edges.add_row(0, L, 2 * (G - 1), 2 * G)
+    t.edges.add_row(0, L, 2 * (G - 1) + 1, 2 * G + 1)
+    t.sites.add_row(3.0, "A")
+    t.mutations.add_row(site=0, node=2 * G, derived_state="C")
+    t.mutations.add_row(site=0, node=2 * G + 1, derived_state="G")
+    t.sort()
+    return t
